@@ -1047,6 +1047,212 @@ func (c *c02ctx) orderSteps(tf, less, dom *ast.FuncDecl) {
 	fmt.Fprintf(&c.out, "(* typeFields: the keys of the sort, in order; byIndex.Less; dominantField; the final order is byIndex *)\nDefinition c02_sort_keys : list skey := [%s].\nDefinition c02_index_less : list istep := [IShorterFalse; IDiffLt; IEndLenLt].\nDefinition c02_dominant : list dcond * dres * dres := ([DLenGt1; DDepthEq; DTagEq], DNone, DFirst).\nDefinition c02_final_order : skey := SKIndex.\n\n", strings.Join(keys, "; "))
 }
 
+
+// typeFields: the breadth-first collection (levels, visited / count maps, the statements of the field loop)
+func (c *c02ctx) collectSteps(tf *ast.FuncDecl) {
+	var outer *ast.ForStmt
+	for _, s := range tf.Body.List {
+		if f, ok := s.(*ast.ForStmt); ok && f.Cond != nil && c.txt(f.Cond) == "len(next) > 0" {
+			outer = f
+		}
+	}
+	if outer == nil {
+		c.fail(tf, "typeFields: `for len(next) > 0` not found")
+	}
+	ob := c.seqTxt(outer.Body.List)
+	if len(ob) != 3 || ob[0] != "current, next = next, current[:0]" || ob[1] != "count, nextCount = nextCount, make(map[reflect.Type]int)" {
+		c.fail(outer, "typeFields: level loop of an unknown shape")
+	}
+	lvl, ok := outer.Body.List[2].(*ast.RangeStmt)
+	if !ok || c.txt(lvl.X) != "current" {
+		c.fail(outer, "typeFields: expected `for _, f := range current`")
+	}
+	lb := lvl.Body.List
+	if len(lb) != 3 || c.txt(lb[0]) != "if _, ok := visited[f.typ]; ok { continue }" || c.txt(lb[1]) != "visited[f.typ] = struct{}{}" {
+		c.fail(lvl, "typeFields: visited handling of an unknown shape")
+	}
+	fl, ok := lb[2].(*ast.ForStmt)
+	if !ok || c.txt(fl.Cond) != "i < f.typ.NumField()" {
+		c.fail(lb[2], "typeFields: expected the loop over the fields of f.typ")
+	}
+	var out []string
+	st := fl.Body.List
+	for k := 0; k < len(st); k++ {
+		t := c.txt(st[k])
+		switch {
+		case t == "sf := f.typ.Field(i)":
+			out = append(out, "CField")
+		case strings.HasPrefix(t, "if sf.Anonymous {") && strings.HasSuffix(t, "} else if !sf.IsExported() { continue }"):
+			out = append(out, "CExportFilter")
+		case strings.HasPrefix(t, "tag := sf.Tag.Get("):
+			out = append(out, "CTagGet")
+		case strings.HasPrefix(t, "if tag == ") && strings.HasSuffix(t, "{ continue }"):
+			out = append(out, "CSkipMark")
+		case strings.HasPrefix(t, "name, opts, _ := strings.Cut(tag, "):
+			out = append(out, "CCutName")
+		case t == "index := make([]int, len(f.index)+1)":
+			if k+2 >= len(st) || c.txt(st[k+1]) != "copy(index, f.index)" || c.txt(st[k+2]) != "index[len(f.index)] = i" {
+				c.fail(st[k], "typeFields: index construction of an unknown shape")
+			}
+			k += 2
+			out = append(out, "CIndex IdxFreshCopy")
+		case t == "index := append(f.index, i)":
+			out = append(out, "CIndex IdxAppendParent")
+		case strings.HasPrefix(t, "if keytag := sf.Tag.Get("):
+			out = append(out, "CNameKey")
+		case t == "ft := sf.Type":
+		case t == "if ft.Name() == \"\" && ft.Kind() == reflect.Pointer { ft = ft.Elem() }":
+			out = append(out, "CFollowPtr")
+		case t == "var omitEmpty, asList bool":
+		case strings.HasPrefix(t, "for opts != \"\" {"):
+			out = append(out, "COptions")
+		case strings.HasPrefix(t, "if sf.Tag.Get("):
+			out = append(out, "CLegacyList")
+		case strings.HasPrefix(t, "if name != \"\" || !sf.Anonymous || ft.Kind() != reflect.Struct {"):
+			is := st[k].(*ast.IfStmt)
+			bt := c.seqTxt(is.Body.List)
+			if len(bt) != 6 || bt[0] != "tagged := name != \"\"" || bt[1] != "if name == \"\" { name = sf.Name }" ||
+				!strings.HasPrefix(bt[2], "field := field{") || bt[3] != "fields = append(fields, field)" ||
+				!strings.HasPrefix(bt[4], "if count[f.typ] > 1 {") || bt[5] != "continue" {
+				c.fail(is, "typeFields: recording of a field of an unknown shape")
+			}
+			lit := is.Body.List[2].(*ast.AssignStmt).Rhs[0].(*ast.CompositeLit)
+			want := []string{"name: name", "tag: tagged", "index: index", "typ: ft", "omitEmpty: omitEmpty", "asList: asList"}
+			if len(lit.Elts) != len(want) {
+				c.fail(lit, "typeFields: field literal of an unknown shape")
+			}
+			for j, e := range lit.Elts {
+				if c.txt(e) != want[j] {
+					c.fail(e, "typeFields: field literal: expected %s", want[j])
+				}
+			}
+			out = append(out, "CRecordField")
+		case t == "nextCount[ft]++":
+			out = append(out, "CCountNext")
+		case t == "if nextCount[ft] == 1 { next = append(next, field{name: ft.Name(), index: index, typ: ft}) }":
+			out = append(out, "CQueueOnce")
+		default:
+			c.fail(st[k], "typeFields: statement of an unknown shape in the field loop: %s", t)
+		}
+	}
+	fmt.Fprintf(&c.out, "(* typeFields: the breadth-first collection - the level loop, then the statements of the loop over the fields of a\n   struct, in order; CIndex: how the index sequence of a field is built from its parent's *)\nDefinition c02_level_steps : list cstep := [CSwapLevels; CResetCounts; CVisitOnce].\nDefinition c02_collect_steps : list cstep := [%s].\n\n", strings.Join(out, "; "))
+}
+
+
+// writeValue, typed arrays: the element kinds of the byte array (typed and []any), the []any / wide element loop
+func (c *c02ctx) arrayElemSteps(fn *ast.FuncDecl) {
+	sw := fn.Body.List[0].(*ast.SwitchStmt)
+	for _, cc := range c.clauses(sw) {
+		if cc.List == nil || c.txt(cc.List[0]) != "TagByteArray" {
+			continue
+		}
+		top, ok := cc.Body[2].(*ast.IfStmt)
+		if !ok || c.txt(top.Cond) != "tagType == TagByteArray" {
+			c.fail(cc, "writeValue typed arrays: expected `if tagType == TagByteArray`")
+		}
+		// byte arrays: switch val.Type().Elem().Kind()
+		var ks *ast.SwitchStmt
+		for _, s := range top.Body.List {
+			if x, ok := s.(*ast.SwitchStmt); ok && c.txt(x.Tag) == "val.Type().Elem().Kind()" {
+				ks = x
+			}
+		}
+		if ks == nil {
+			c.fail(top, "writeValue TagByteArray: no switch on the element kind")
+		}
+		var typed, anyRows []string
+		for _, kc := range c.clauses(ks) {
+			body := strings.Join(c.seqTxt(kc.Body), "; ")
+			if kc.List != nil {
+				var w string
+				switch body {
+				case "data = make([]byte, val.Len()); for i := range data { if val.Index(i).Bool() { data[i] = 1 } else { data[i] = 0 } }":
+					w = "WBool01"
+				case "data = val.Bytes()":
+					w = "WByteOf SUint"
+				case "data = unsafe.Slice((*byte)(val.UnsafePointer()), val.Len())":
+					w = "WByteOf SInt"
+				default:
+					c.fail(kc, "writeValue TagByteArray: element bytes of an unknown shape: %s", body)
+				}
+				typed = append(typed, fmt.Sprintf("(%s, %s)", c.kinds(kc.List), w))
+				continue
+			}
+			// default: []any
+			if len(kc.Body) != 2 || c.txt(kc.Body[0]) != "data = make([]byte, n)" {
+				c.fail(kc, "writeValue TagByteArray []any: expected data = make([]byte, n); loop")
+			}
+			loop, ok := kc.Body[1].(*ast.RangeStmt)
+			lb := c.seqTxt(loop.Body.List)
+			if !ok || len(lb) != 3 || lb[0] != "elem := val.Index(i)" || lb[1] != "for elem.Kind() == reflect.Interface { elem = elem.Elem() }" {
+				c.fail(kc, "writeValue TagByteArray []any: loop of an unknown shape")
+			}
+			es, ok := loop.Body.List[2].(*ast.SwitchStmt)
+			if !ok || c.txt(es.Tag) != "elem.Kind()" {
+				c.fail(loop, "writeValue TagByteArray []any: expected switch elem.Kind()")
+			}
+			defErr := false
+			for _, ec := range c.clauses(es) {
+				b := strings.Join(c.seqTxt(ec.Body), "; ")
+				if ec.List == nil {
+					if _, isRet := ec.Body[0].(*ast.ReturnStmt); !isRet {
+						c.fail(ec, "writeValue TagByteArray []any: the default must return an error")
+					}
+					defErr = true
+					continue
+				}
+				var w string
+				switch b {
+				case "if elem.Bool() { data[i] = 1 }":
+					w = "WBool01"
+				case "data[i] = byte(elem.Int())":
+					w = "WByteOf SInt"
+				case "data[i] = byte(elem.Uint())":
+					w = "WByteOf SUint"
+				default:
+					c.fail(ec, "writeValue TagByteArray []any: element byte of an unknown shape: %s", b)
+				}
+				anyRows = append(anyRows, fmt.Sprintf("(%s, %s)", c.kinds(ec.List), w))
+			}
+			if !defErr {
+				c.fail(es, "writeValue TagByteArray []any: no error default")
+			}
+		}
+		// int / long arrays
+		els, ok := top.Else.(*ast.BlockStmt)
+		if !ok || len(els.List) != 1 {
+			c.fail(top, "writeValue typed arrays: expected the element loop in the else branch")
+		}
+		loop, ok := els.List[0].(*ast.ForStmt)
+		if !ok {
+			c.fail(els, "writeValue typed arrays: expected a for loop")
+		}
+		var steps []string
+		for _, st := range loop.Body.List {
+			switch t := c.txt(st); {
+			case t == "elem := val.Index(i)":
+			case t == "for elem.Kind() == reflect.Interface { elem = elem.Elem() }":
+				steps = append(steps, "AUnwrapIface")
+			case t == "want := TagInt":
+			case t == "if tagType == TagLongArray { want = TagLong }":
+				steps = append(steps, "AWant nbt_TagInt nbt_TagLongArray nbt_TagLong")
+			case strings.HasPrefix(t, "if !elem.IsValid() || getTagTypeByType(elem.Type()) != want { return "):
+				steps = append(steps, "ACheckTag")
+			case t == "var err error" || t == "var v int64":
+			case t == "switch elem.Kind() { case reflect.Int32, reflect.Int64: v = elem.Int() case reflect.Uint32, reflect.Uint64: v = int64(elem.Uint()) }":
+				steps = append(steps, "AValue [([KInt32; KInt64], SInt); ([KUint32; KUint64], SUint)]")
+			case t == "if tagType == TagIntArray { err = writeInt32(e.w, int32(v)) } else if tagType == TagLongArray { err = writeInt64(e.w, v) }":
+				steps = append(steps, "AWrite [(nbt_TagIntArray, 32); (nbt_TagLongArray, 64)]")
+			case t == "if err != nil { return err }":
+			default:
+				c.fail(st, "writeValue int/long arrays: statement of an unknown shape: %s", t)
+			}
+		}
+		fmt.Fprintf(&c.out, "(* writeValue, TagByteArray: the bytes per element kind of a typed slice, and per dynamic kind of a []any (else: error) *)\nDefinition c02_bytearray_typed : list (list rkind * wop) := [%s].\nDefinition c02_bytearray_any : list (list rkind * wop) := [%s].\n(* writeValue, TagIntArray / TagLongArray: the statements of the element loop *)\nDefinition c02_wide_steps : list astep := [%s].\n\n",
+			strings.Join(typed, "; "), strings.Join(anyRows, "; "), strings.Join(steps, "; "))
+	}
+}
+
 // ---------------------------------------------------------------- driver
 
 func genC02(repo string) (out string, err error) {
@@ -1098,6 +1304,8 @@ func genC02(repo string) (out string, err error) {
 	c.loopSteps(get("getTagType"))
 	c.writeSteps(get("Encoder.writeValue"), get("Encoder.writeListHeader"))
 	c.orderSteps(get("typeFields"), get("byIndex.Less"), get("dominantField"))
+	c.collectSteps(get("typeFields"))
+	c.arrayElemSteps(get("Encoder.writeValue"))
 	for _, n := range []string{"Encoder.Encode", "Encoder.marshal", "Encoder.writeValue", "intOf", "getTagType", "getTagTypeByType",
 		"writeTag", "Encoder.writeListHeader", "writeInt16", "writeInt32", "writeInt64", "isEmptyValue", "typeFields", "dominantField", "byIndex.Less"} {
 		fd := get(n)
